@@ -137,10 +137,19 @@ func VerifFreshNonce() int64 {
 	return n
 }
 
+// VerifPeerEnodeForm: peers are reported the way recent geth does - the id field holds a hash, the node id
+// (public key) travels inside an enode URI.
+var VerifPeerEnodeForm bool
+
 func VerifPeerInfos(ids ...string) []ethnode.PeerInfo {
 	r := []ethnode.PeerInfo{}
-	for _, id := range ids {
-		r = append(r, ethnode.PeerInfo{ID: id})
+	for i, id := range ids {
+		pi := ethnode.PeerInfo{ID: id}
+		if VerifPeerEnodeForm {
+			pi.ID = fmt.Sprintf("%064x", 0xabc0+i)
+			pi.Enode = "enode://" + id + "@192.0.2.77:30303"
+		}
+		r = append(r, pi)
 	}
 	return r
 }
